@@ -17,14 +17,15 @@
 
    TRACE_FILE: JSON array of [init |-> obs, ev |-> << [ev, ..., obs] >>] *)
 EXTENDS WalletCrypt, Json, IOUtils, TLCExt
-VARIABLES tid, l, prev, obs, evt, bpw
-tvars == <<vars, tid, l, prev, obs, evt, bpw>>
+VARIABLES tid, l, prev, obs, evt, bpw,
+          upw      \* the password the USER has set, by the history of API calls and their observed results (never read from the wallet object)
+tvars == <<vars, tid, l, prev, obs, evt, bpw, upw>>
 TraceLog == JsonDeserialize(IOEnv.TRACE_FILE)
 T == TraceLog[tid]
 
 TInit == /\ tid \in 1..Len(TraceLog) /\ l = 1
          /\ accs = <<>> /\ password = NoPw /\ pref = FALSE /\ disk = Absent /\ blob = NoBlob /\ wrote = FALSE /\ ops = 0 /\ act = <<"Init">>
-         /\ prev = TraceLog[tid].init /\ obs = TraceLog[tid].init /\ evt = [ev |-> "Init"] /\ bpw = NoPw
+         /\ prev = TraceLog[tid].init /\ obs = TraceLog[tid].init /\ evt = [ev |-> "Init"] /\ bpw = NoPw /\ upw = NoPw
 
 mvars == <<accs, password, pref, disk, blob, wrote, act>>
 Misaligned == TLCSet(100000 + tid, 1)
@@ -54,6 +55,9 @@ TNext == /\ l <= Len(T.ev) /\ l' = l + 1 /\ tid' = tid /\ ops' = ops
          /\ LET e == T.ev[l] IN
               /\ prev' = obs /\ obs' = e.obs /\ evt' = e
               /\ bpw' = IF e.ev = "Pack" THEN e.pw ELSE bpw
+              /\ upw' = IF e.ev = "Encrypt" THEN e.pw
+                        ELSE IF e.ev = "Unlock" /\ e.res THEN e.pw
+                        ELSE IF e.ev = "Reload" THEN NoPw ELSE upw
               /\ ModelStep(e)
               /\ IF ObsCore(e.obs) = ModelCore' /\ ResultOf(e) THEN TRUE ELSE Misaligned
 TSpec == TInit /\ [][TNext]_tvars
@@ -71,7 +75,9 @@ T_Identity == /\ \A i \in DOMAIN obs.accs : LET a == obs.accs[i] IN
 \* a locked wallet has no secret in clear in memory
 T_LockHides == evt.ev = "Lock" => \A i \in DOMAIN obs.accs : obs.accs[i].enc /\ obs.accs[i].seed # "plain" /\ obs.accs[i].pks # "plain" /\ ~obs.accs[i].pko
 \* the file written while the preference is on and a password is set holds no secret in clear (parsed fields AND byte scan)
-T_NoPlaintextOnDisk == (evt.ev \in {"Save", "Encrypt", "Decrypt"} /\ obs.pref /\ obs.password # NoPw)
+\* ("a password is set": by the user, through encrypt() or a successful unlock() since the wallet was loaded -- whether the
+\* wallet object still remembers it is the code's business)
+T_NoPlaintextOnDisk == (evt.ev \in {"Save", "Encrypt", "Decrypt"} /\ obs.pref /\ (obs.password # NoPw \/ upw # NoPw))
                          => (obs.disk.exists /\ ~obs.disk.plain /\ ~DiskPlain(obs.disk))
 \* what comes back from the file is what was written: the reloaded accounts serialise to the very fields of the file
 T_ReloadFaithful == evt.ev = "Reload" => /\ Len(obs.accs) = Len(prev.disk.accs) /\ obs.pref = prev.disk.pref /\ obs.password = NoPw
